@@ -379,7 +379,30 @@ def run(ctx):
                     ctx.violation("dtype", f"table v{version}: tau_energy with {nm} gives {got_.tolist()}; the same numbers as float64 give {want_.tolist()}", {"version": version, "case": nm})
             except Exception as e:
                 ctx.exception("dtype", f"table v{version}: tau_energy with {nm} raised", e, {"version": version, "case": nm})
-    for m in ("dtype", "pipeline", "plots", "call", "forward", "inverse", "range", "monotone", "low", "high", "reject", "explicit", "explicit-spy", "sampler-direct"):
+        # ---------- memory layout: the fraction at a position depends on the numbers there, not on whether the
+        #            batch is 1-d, C- or Fortran-ordered, a transposed / strided view or read-only (seeded C04-16)
+        lrng = ctx.subrng("c04-layout", version)
+        b2 = lrng.uniform(0.0, np.pi / 2, (6, 8))
+        b2[0, :3] = [0.0, float(axB[0]), float(axB[-1])]
+        e2 = lrng.uniform(6.0, 12.0, (6, 8))
+        u2 = lrng.uniform(0.0, 1.0, (6, 8))
+        try:
+            want2 = np.asarray(tau.tau_energy(b2.ravel().copy(), e2.ravel().copy(), u2.ravel().copy())).reshape(6, 8)
+            for lname, f in (("C 2-d", lambda x: x.copy()), ("Fortran 2-d", np.asfortranarray), ("transposed view", lambda x: np.ascontiguousarray(x.T).T), ("strided view", lambda x: np.repeat(np.repeat(x, 2, 0), 2, 1)[::2, ::2]), ("read-only", lambda x: (lambda y: (y.setflags(write=False), y)[1])(x.copy()))):
+                ctx.count("layout", b2.size)
+                bb, ee, uu = f(b2), f(e2), f(u2)
+                try:
+                    got2 = np.asarray(tau.tau_energy(bb, ee, uu))
+                    if got2.shape != (6, 8) or not np.array_equal(got2, want2):
+                        nbad = int(np.sum(got2 != want2)) if got2.shape == (6, 8) else 48
+                        ctx.violation("layout", f"table v{version}: tau_energy on a {lname} batch (6, 8) differs from the same numbers as fresh 1-d arrays at {nbad} of 48 positions (e.g. {np.asarray(got2).ravel()[0]!r} vs {want2.ravel()[0]!r})", {"version": version, "layout": lname})
+                    if not (np.array_equal(bb, b2) and np.array_equal(ee, e2) and np.array_equal(uu, u2)):
+                        ctx.violation("layout", f"table v{version}: tau_energy modified its {lname} inputs", {"version": version, "layout": lname})
+                except Exception as e:
+                    ctx.exception("layout", f"table v{version}: tau_energy on a {lname} batch raised", e, {"version": version, "layout": lname})
+        except Exception as e:
+            ctx.exception("layout", f"table v{version}: tau_energy on a flat batch of 48 raised", e, {"version": version})
+    for m in ("layout", "dtype", "pipeline", "plots", "call", "forward", "inverse", "range", "monotone", "low", "high", "reject", "explicit", "explicit-spy", "sampler-direct"):
         ctx.require(m)
     return ctx.finish(
         rule="per table version: batches of size {1,2,8191,8192,8193,20000} with energies scattered / one tabulated value / blocks of constant tabulated values (8192-aligned and not) / sorted, in compositions {all in-table, all below-min, all above-max, mixed 25 % / 80 % / 0.2 % above-max}; (logE, beta) from nodes, cell centres, cell edges and interior; u uniform on [0, 1) plus hostile values (0, denormal .. 1-2^-53) and exact node CDF values incl. the first and last of each row; a case is a distinct (version, logE, beta, u)",
